@@ -182,7 +182,7 @@ func c20(c *Ctx) {
 			c.R.Check(len(nonEmptyByCmp) == 3, load.FuncName(fn)+": all three keys tested", c.pos(fn.Pos()), "tls.crt, tls.key and ca.crt are all consulted", "not all three certificate keys are consulted before regenerating")
 		}
 		// read failure other than NotFound returns before Generate
-		c.requireCross(site(gs[0])+" after-read", gs[0], okEdges(get[0]), "ok-or-NotFound(Get(secret))")
+		c.requireCross(site(gs[0])+" after-read", gs[0], okEdges(get[0], "IgnoreNotFound"), "ok-or-NotFound(Get(secret))")
 		// Create only when not found, Update only when found: create flag
 		ev := cfgx.ErrEvents(get[0])
 		var crt, upd ssa.CallInstruction
@@ -317,7 +317,7 @@ func c20(c *Ctx) {
 		good := len(ws) == 1 && cfgx.CalleeName(ws[0]) == clientCreate
 		if good {
 			ev := cfgx.ErrEvents(ws[0])
-			good = ev.Returned && len(ev.Filtered) == 1 && ev.Filtered[0] == "Ignore"
+			good = ev.Returned && len(ev.Filtered) == 1 && ev.Filtered[0] == "Ignore(IsAlreadyExists)"
 			// the predicate ignored is IsAlreadyExists
 			okPred := false
 			for _, x := range calls(fn, xprt+"resource.Ignore") {
